@@ -534,6 +534,11 @@ class Hist(Scenario):
                 pass
         else:
             self.g("checkout", "-q", feat)
+            if pf.get("rebase_pending_untracked") and rng.random() < 0.6:
+                # a session goes on working while its commits are rebased: a new, still untracked file it has written and reported is
+                # pending in the working log of the old HEAD (untracked files do not stop a rebase)
+                self.do_create(author=rng.choice(self.sessions))
+                self.ops.append("rebase:with-pending-untracked")
             p = self.g("rebase", base_branch)
         self.ops.append("rebase:" + kind)
         outcome = "done"
